@@ -2,7 +2,7 @@
    Proofs/WpProofs.v is kept by the end-of-scope stop and by a restart; what the two
    events do to the registry, the companions and every thread's debug registers. *)
 From BS Require Import Model.Base Gen.Dr Model.Dr Model.Wp Spec.DrArch Proofs.DrProofs Proofs.WpProofs.
-From W Require Import ModelWpX.
+From BS Require Import Model.WpX.
 From Coq Require Import Lia.
 Open Scope N_scope.
 
